@@ -6,6 +6,7 @@
   statements that are NOT proved are kept as `def …_full : Prop`.
 -/
 import MW.Lemmas.PersistCrash
+import MW.Lemmas.PersistWorld
 namespace MW.Props.C06
 open MW MW.Model.Ledger MW.Model.Persist MW.Spec.Persist MW.Lemmas.PersistOp MW.Lemmas.PersistFault MW.Lemmas.PersistCrash
 
@@ -59,11 +60,31 @@ theorem pinv_block_extend (env : Env) (n : Nat) (b : Block) (P : PStore) (V : PV
     SyncWf ((opBlock env n b).run none P V).P :=
   block_extend_bestInv env n b P V hp hok
 
-/-- FULL statement (not proved): BestInv and SyncWf are kept by every successful block operation,
-    including the reorganisation path (disconnects, walk-back, several connects in one batch).
-    Missing: loop invariants for the three loops of `Ledger.reorg` and for `Ledger.rollback`
-    (rollback does not touch the height table). The drivers evaluate `bestInvB` after every step of
-    every generated history (tested, not proved). -/
+/-- pinv_block: EVERY successful block operation — direct extension, reorganisation with any number of
+    disconnects and connects in one batch, stale or duplicate notification — keeps BestInv and SyncWf and
+    again leaves a store that holds the books of a well-formed chain whose tip is the volatile tip copy.
+    Proved on top of C01's `processBlock_total` (MW.Lemmas.Ledger), i.e. for stores satisfying the ledger
+    invariant `Inv … S` for a stored chain `S`, with the block-structure hypotheses `ReorgHyp` (both chains
+    well-formed, valid, from one genesis, ids determine blocks) and every address owner a ready wallet. -/
+theorem pinv_block (env : Env) (n : Nat) (b : Block) (P : PStore) (V : PVol) (S : List Block)
+    (H : Lemmas.Ledger.ReorgHyp (ctxOf env V) S) (hinj : Lemmas.Ledger.IdInj (b :: (S ++ env.node.chain)))
+    (hI : Lemmas.Ledger.Inv (ctxOf env V) P.led S) (hv : V.led.best = Lemmas.Ledger.tipMeta S)
+    (hgen : b.height = 0 → b.prev ≠ (Lemmas.Ledger.tipMeta S).hash)
+    (hAR : Lemmas.Ledger.AllReady (ctxOf env V).own (readyWallets P.led (ctxOf env V).wallets))
+    (hne : (readyWallets P.led (ctxOf env V).wallets).isEmpty = false)
+    (hok : ((opBlock env n b).run none P V).ok = true) :
+    BestInv ((opBlock env n b).run none P V).P ((opBlock env n b).run none P V).V ∧
+    SyncWf ((opBlock env n b).run none P V).P ∧
+    ∃ S', Lemmas.Ledger.Inv (ctxOf env V) ((opBlock env n b).run none P V).P.led S' ∧
+      ((opBlock env n b).run none P V).V.led.best = Lemmas.Ledger.tipMeta S' ∧ Lemmas.Ledger.GoodChain S' :=
+  block_step_inv env n b P V S H hinj hI hv hgen hAR hne hok
+
+/-- STILL NOT PROVED: the same WITHOUT the ledger invariant as a hypothesis, i.e. for stores with
+    importing or removed wallets (`AllReady` fails) or outside `Inv` altogether. What is missing is a frame
+    lemma library "rollback / disconnectBlock / connectAll never write the height table except through
+    resetSyncedTo / putSyncedTo" for arbitrary stores; with the refactored (fold-based) ledger model this is
+    plain structural induction but was not done. `pinv_block_extend` (no hypothesis on the store) covers the
+    direct-extension path. The drivers evaluate `bestInvB` on every model state of every history. -/
 def pinv_block_full : Prop :=
   ∀ (env : Env) (n : Nat) (b : Block) (P : PStore) (V : PVol), BestInv P V → SyncWf P →
     ((opBlock env n b).run none P V).ok = true →
@@ -110,19 +131,21 @@ theorem crash_loses_only_volatile (P : PStore) (V : PVol) (hb : BestInv P V) (hk
 
 /-- removal_resumes / import_resumes: whatever was marked in the store is queued again at boot -/
 theorem removal_resumes (env : Env) (n : Nat) (P : PStore) (w : Wid) (st : WStatus)
-    (hq : env.node.tipHeight = P.led.syncedTo) (h : (w, st) ∈ P.led.status) (hr : st.removed = true) :
+    (hq : env.node.tipHeight = P.led.syncedTo) (ht : tipOnB env P = true)
+    (h : (w, st) ∈ P.led.status) (hr : st.removed = true) :
     Task.rem w ∈ (start env n P (bootVol P)).V.tasks := by
-  rw [start_quiet env n P (bootVol P) hq]; exact requeue_removed P w st h hr
+  rw [start_quiet env n P hq ht]; exact requeue_removed P w st h hr
 
 theorem import_resumes (env : Env) (n : Nat) (P : PStore) (w : Wid) (st : WStatus)
-    (hq : env.node.tipHeight = P.led.syncedTo) (h : (w, st) ∈ P.led.status)
+    (hq : env.node.tipHeight = P.led.syncedTo) (ht : tipOnB env P = true) (h : (w, st) ∈ P.led.status)
     (hr : st.removed = false) (hi : st.synced.isSome = true) :
     Task.imp w ∈ (start env n P (bootVol P)).V.tasks := by
-  rw [start_quiet env n P (bootVol P) hq]; exact requeue_importing P w st h hr hi
+  rw [start_quiet env n P hq ht]; exact requeue_importing P w st h hr hi
 
 -- ------------------------------------------------------------------ catchup_converges
 
-/-- catchup_converges (partial): when no fast-forward applies, Start's catch-up IS the processing of
+/-- catchup_converges (partial): when no fast-forward applies and the synced block is still the node's block
+    at that height (nothing to resync), Start's catch-up IS the processing of
     the missed tip notifications in order — boot followed by catch-up reaches the store (and tip
     copy, key cache) that the run which never stopped reaches by processing those notifications.
     Partial: the missed blocks are processed as Start does (each extends the previous one or goes
@@ -130,6 +153,7 @@ theorem import_resumes (env : Env) (n : Nat) (P : PStore) (w : Wid) (st : WStatu
     (rollback + reconnect) is part of `crash_equiv_full`. -/
 theorem catchup_converges_partial (n : Nat) (s : Sys) (hb : BestInv s.P s.V) (hk : s.V.keys = s.P.ks)
     (hnf : (!(!(readyWallets s.P.led (walletsOf s.P.ks)).isEmpty) && decide (s.env.node.tipHeight > Gen.Updates.ffGap)) = false)
+    (ht : tipOnB s.env s.P = true) (hle : s.P.led.syncedTo ≤ s.env.node.tipHeight)
     (hok : (crash s.env n s.P).ok = true) :
     let missed := (pendingBlocks s.env (s.env.node.tipHeight + 1) (s.P.led.syncedTo + 1)).map Ev.block
     (crash s.env n s.P).P = (runEvs n false s missed).P ∧
@@ -137,7 +161,7 @@ theorem catchup_converges_partial (n : Nat) (s : Sys) (hb : BestInv s.P s.V) (hk
   intro missed
   have hnf' : (!(!(readyWallets s.P.led (walletsOf (bootVol s.P).keys)).isEmpty) && decide (s.env.node.tipHeight > Gen.Updates.ffGap)) = false := hnf
   unfold crash at hok ⊢
-  rw [start_noff s.env n s.P (bootVol s.P) hnf'] at hok ⊢
+  rw [start_noff s.env n s.P hnf' ht hle] at hok ⊢
   simp only at hok ⊢
   by_cases hc : (catchUp s.env n (s.env.node.tipHeight + 1) (s.P.led.syncedTo + 1) s.P (bootVol s.P) 0).ok = true
   · simp only [hc, Bool.not_true] at hok ⊢
@@ -177,13 +201,75 @@ theorem crash_equiv_partial (n : Nat) (evs : List Ev) (s : Sys) (hq : crashesQui
     CrashRel (runEvs n true s evs) (runEvs n false s evs) :=
   runEvs_rel n evs s s hq ⟨rfl, rfl, vEq_refl s.V⟩
 
-/-- FULL statement (not proved): crash at ANY commit boundary (also while notifications are still
-    queued), then the rest of the history: whenever the run that never stopped is quiet again, the
-    crashing run has the same store. Missing: the convergence theorem of the follower (C01's
-    `reorg_reaches`: processing the node's tip from ANY synced prefix reaches the ledger of the
-    node's chain), which is what makes stale notifications after a catch-up harmless. Tested on
-    every generated history by `crashall` (implementation: every commit index as crash point;
-    model: every commit of the model run as crash point). -/
+/-- crash_preserves_J: a crash as an event of C01's histories (`MW.Lemmas.PersistWorld.crashW`: the store
+    stays, the tip copy is rebuilt from synced-to, the notification queue is LOST, Start's catch-up
+    processes the node's blocks above synced-to) keeps C01's step invariant `J` — at EVERY commit boundary,
+    quiet or not, with one exception made explicit by `freshAt`: notifications were pending AND the node's
+    chain is not higher than the block the wallet is synced to. -/
+theorem crash_preserves_J {e : Lemmas.Ledger.Env} {G : Block} {w : Lemmas.Ledger.World}
+    (hJ : Lemmas.Ledger.J e G w) (hN : Lemmas.Ledger.ChainOK e G w.chain) (hf : Lemmas.PersistWorld.freshAt w) :
+    Lemmas.Ledger.J e G (Lemmas.PersistWorld.crashW w) :=
+  Lemmas.PersistWorld.crashW_J hJ hN hf
+
+/-- with the resync step of Start (the repair of F2; `MW.Lemmas.PersistWorld.crashF`, `Model.Persist.resync`)
+    the exception is gone: a crash keeps `J` at EVERY commit boundary. The case "synced block is the
+    node's block at that height and nothing above it" needs the hash-chain property (`prefix_of_id`): the
+    wallet's chain then IS the node's chain. -/
+theorem crash_preserves_J_repaired {e : Lemmas.Ledger.Env} {G : Block} {w : Lemmas.Ledger.World}
+    (hJ : Lemmas.Ledger.J e G w) (hN : Lemmas.Ledger.ChainOK e G w.chain) :
+    Lemmas.Ledger.J e G (Lemmas.PersistWorld.crashF w) :=
+  Lemmas.PersistWorld.crashF_J hJ hN
+
+/-- crash_equiv over the histories of C01 (node extends / reorganises to any branch, handler steps in any
+    interleaving) with ANY number of crashes at ANY commit boundaries (event `crashF`: Start with the resync
+    step, no side condition; event `crash`: Start as it was, side condition `freshAt`): whenever nothing
+    is queued, the crashing run holds the books of the node's chain with the tip at the node's tip … -/
+theorem crash_quiet_inv {e : Lemmas.Ledger.Env} {G : Block} (E : Lemmas.Ledger.EnvHyp e G)
+    (evs : List Lemmas.PersistWorld.EvC) (w : Lemmas.Ledger.World)
+    (hJ : Lemmas.Ledger.J e G w) (hR : Lemmas.PersistWorld.RunOK e G w evs)
+    (hq : (Lemmas.PersistWorld.runC e w evs).queue = []) :
+    Lemmas.Ledger.Inv (e.ctx (Lemmas.PersistWorld.runC e w evs).chain) (Lemmas.PersistWorld.runC e w evs).s
+        (Lemmas.PersistWorld.runC e w evs).chain ∧
+      (Lemmas.PersistWorld.runC e w evs).v.best = Lemmas.Ledger.tipMeta (Lemmas.PersistWorld.runC e w evs).chain :=
+  Lemmas.PersistWorld.quiet_inv E evs w hJ hR hq
+
+/-- … and therefore exactly the CONFIRMED state of the run that never stopped: all confirmed buckets
+    (credits, unspent index, debits, deposit records, tx records, block records, height table) are
+    extensionally equal, synced-to and the tip copy are equal. (The pending buckets are not functions of
+    the chain: see `notes/C06.md`, "lagging follower".) -/
+theorem crash_equiv_ledger {e : Lemmas.Ledger.Env} {G : Block} (E : Lemmas.Ledger.EnvHyp e G)
+    (w0 : Lemmas.Ledger.World) (evsC evsT : List Lemmas.PersistWorld.EvC)
+    (hJ : Lemmas.Ledger.J e G w0) (hC : Lemmas.PersistWorld.RunOK e G w0 evsC)
+    (hT : Lemmas.PersistWorld.RunOK e G w0 evsT)
+    (hqC : (Lemmas.PersistWorld.runC e w0 evsC).queue = []) (hqT : (Lemmas.PersistWorld.runC e w0 evsT).queue = [])
+    (hch : (Lemmas.PersistWorld.runC e w0 evsC).chain = (Lemmas.PersistWorld.runC e w0 evsT).chain) :
+    AMap.Equiv (Lemmas.PersistWorld.runC e w0 evsC).s.credits (Lemmas.PersistWorld.runC e w0 evsT).s.credits ∧
+    AMap.Equiv (Lemmas.PersistWorld.runC e w0 evsC).s.unspent (Lemmas.PersistWorld.runC e w0 evsT).s.unspent ∧
+    AMap.Equiv (Lemmas.PersistWorld.runC e w0 evsC).s.debits (Lemmas.PersistWorld.runC e w0 evsT).s.debits ∧
+    AMap.Equiv (Lemmas.PersistWorld.runC e w0 evsC).s.game (Lemmas.PersistWorld.runC e w0 evsT).s.game ∧
+    AMap.Equiv (Lemmas.PersistWorld.runC e w0 evsC).s.txrecs (Lemmas.PersistWorld.runC e w0 evsT).s.txrecs ∧
+    AMap.Equiv (Lemmas.PersistWorld.runC e w0 evsC).s.blocks (Lemmas.PersistWorld.runC e w0 evsT).s.blocks ∧
+    AMap.Equiv (Lemmas.PersistWorld.runC e w0 evsC).s.sync (Lemmas.PersistWorld.runC e w0 evsT).s.sync ∧
+    (Lemmas.PersistWorld.runC e w0 evsC).s.syncedTo = (Lemmas.PersistWorld.runC e w0 evsT).s.syncedTo ∧
+    (Lemmas.PersistWorld.runC e w0 evsC).v.best = (Lemmas.PersistWorld.runC e w0 evsT).v.best :=
+  Lemmas.PersistWorld.crash_equiv_ledger E w0 evsC evsT hJ hC hT hqC hqT hch
+
+/-- the hypotheses are satisfiable: the example history of C01 with a crash while two notifications are queued -/
+example : Lemmas.PersistWorld.RunOK Lemmas.Ledger.hxEnv Lemmas.Ledger.hxG Lemmas.Ledger.hxW0 Lemmas.PersistWorld.hxC :=
+  Lemmas.PersistWorld.hxRunOK
+example : Lemmas.Ledger.J Lemmas.Ledger.hxEnv Lemmas.Ledger.hxG Lemmas.Ledger.hxW0 := Lemmas.PersistWorld.hxJ0
+
+/-- WHAT `crash_equiv` STILL LACKS (kept as a statement; not proved):
+    (1) the bridge between the two formulations: `Model.Persist.crash` / `start` (height-driven catch-up with
+        the fast-forward, on store × key cache) and `PersistWorld.crashW` followed by handler steps (on C01's
+        world with a fixed keystore view) — `catchup_converges_partial` shows that Start's catch-up IS the
+        handling of the blocks above synced-to, but the two state spaces are not formally related;
+    (2) the `freshAt` exception WAS real (finding F2, repaired in the repository: Start now hands the node's
+        block at the highest common height to the follower when the synced block has left the node's
+        chain — `crash_preserves_J_repaired`);
+    (3) histories with address issuance (C01's `WorldI`), imports and removals (`AllReady` fails) and
+        unconfirmed transactions (the pending buckets are not functions of the chain).
+    The statement below is (1)+(3) for the persistence model's own histories. -/
 def crash_equiv_full : Prop :=
   ∀ (n : Nat) (pre post : List Ev) (s : Sys),
     let s1 := runEvs n false s pre
